@@ -154,7 +154,7 @@ def main():
         ],
         'checks': checks,
         'not_applicable': na,
-        'notes': 'All checks execute the real implementation from /repo (no separate abstract model; TLC/Spin/Apalache unused, see DESIGN.md section 0). known_findings.json lists open findings and fixed: entries; seeded/ holds confirmed breaking changes used to test detection.',
+        'notes': 'All checks execute the real implementation from /repo (no separate abstract model; TLC/Spin/Apalache unused, see DESIGN.md section 0). known_findings.json lists open findings (F7, F12, F20, F22, F24) and a fixed: line per repaired defect (30 fix: commits in /repo); DESIGN.md section 8 is the build record; mutations/ (author mutations, controls/) and seeded/ (150 independently produced changes, rounds r1-r4) are re-run by tools/mut.py into mutations/RESULTS.json.',
     }
     if not na:
         del man['not_applicable']
